@@ -44,6 +44,12 @@ type c19Case struct {
 	// Listen: the server also has its HTTP listener, as the mtail command always
 	// has (1: a TCP port on loopback, 2: a unix socket); the run ends all the same
 	Listen int `json:"listen,omitempty"`
+	// Wakers: 0 the server is given both poll wakers; 1 only the stream waker;
+	// 2 neither (a one-shot run polls nothing)
+	Wakers int `json:"wakers,omitempty"`
+	// Copy: program Copy-1 is installed a second time under another file name,
+	// byte for byte
+	Copy int `json:"copy,omitempty"`
 }
 
 func (f c19File) bytes() string {
@@ -121,7 +127,14 @@ func runC19x(c c19Case) *vstat.Failure {
 	sname := "0s_" + tag + ".mtail"
 	must(os.WriteFile(filepath.Join(progDir, sname), []byte(c19Stopper), 0o644))
 	pname := func(i int) string { return fmt.Sprintf("p%d_%s.mtail", i, tag) }
+	nprog := len(c.Progs)
+	if c.Copy > 0 && c.Copy <= len(c.Progs) {
+		nprog++ // the copy is program number len(c.Progs)
+	}
 	src := func(i int) string {
+		if i >= len(c.Progs) {
+			i = c.Copy - 1
+		}
 		s := c.Progs[i].Source()
 		if i == c.Broken {
 			s += "\n/unterminated {\n"
@@ -129,7 +142,7 @@ func runC19x(c c19Case) *vstat.Failure {
 		return s
 	}
 	compiles := true
-	for i := range c.Progs {
+	for i := 0; i < nprog; i++ {
 		must(os.WriteFile(filepath.Join(progDir, pname(i)), []byte(src(i)), 0o644))
 		if _, err := hx.Compile(pname(i), src(i)); err != nil {
 			compiles = false
@@ -162,8 +175,13 @@ func runC19x(c c19Case) *vstat.Failure {
 	}
 	nch := make(chan newRes, 1)
 	go func() {
-		opts := []mtail.Option{mtail.ProgramPath(progDir), mtail.LogPathPatterns(patterns...), mtail.OneShot,
-			mtail.LogstreamPollWaker(newWaker()), mtail.LogPatternPollWaker(newWaker())}
+		opts := []mtail.Option{mtail.ProgramPath(progDir), mtail.LogPathPatterns(patterns...), mtail.OneShot}
+		switch c.Wakers {
+		case 0:
+			opts = append(opts, mtail.LogstreamPollWaker(newWaker()), mtail.LogPatternPollWaker(newWaker()))
+		case 1:
+			opts = append(opts, mtail.LogstreamPollWaker(newWaker()))
+		}
 		switch c.Listen {
 		case 1:
 			opts = append(opts, mtail.BindAddress("127.0.0.1", "0"))
@@ -302,7 +320,7 @@ func runC19x(c c19Case) *vstat.Failure {
 		}
 	}
 	// 2. every program: final metrics = that program run over this interleaving
-	for i := range c.Progs {
+	for i := 0; i < nprog; i++ {
 		obj, err := hx.Compile(pname(i), src(i))
 		if err != nil {
 			return vstat.Failf("harness", "%v", err)
@@ -407,6 +425,14 @@ func TestC19(t *testing.T) {
 				c.Files = append(c.Files, f)
 			}
 			c.Glob = rapid.SampledFrom([]int{0, 0, 1, 2, 3, 4}).Draw(rt, "glob")
+			c.Wakers = rapid.SampledFrom([]int{0, 0, 1, 2}).Draw(rt, "wakers")
+			if c.Wakers > 0 {
+				st.Class("server-without-a-poll-waker")
+			}
+			if len(c.Progs) > 0 && rapid.IntRange(0, 3).Draw(rt, "copy") == 0 {
+				c.Copy = 1 + rapid.IntRange(0, len(c.Progs)-1).Draw(rt, "copyof")
+				st.Class("a-program-installed-twice-under-two-names")
+			}
 			c.Listen = rapid.SampledFrom([]int{0, 1, 2}).Draw(rt, "listen")
 			if c.Listen > 0 {
 				st.Class("with-http-listener")
